@@ -60,11 +60,11 @@ Section Sem.
   (* integer arithmetic at type t on mathematical values *)
   Definition int_arith (t : ity) (op : arith) (a b : Z) : res Z :=
     match op with
-    | Add => Ok (wrap t (a + b))
-    | Sub => Ok (wrap t (a - b))
-    | Mul => Ok (wrap t (a * b))
-    | Div => if b =? 0 then RtErr else Ok (wrap t (Z.quot a b))
-    | Mod => if b =? 0 then RtErr else Ok (wrap t (Z.rem a b))
+    | AAdd => Ok (wrap t (a + b))
+    | ASub => Ok (wrap t (a - b))
+    | AMul => Ok (wrap t (a * b))
+    | ADiv => if b =? 0 then RtErr else Ok (wrap t (Z.quot a b))
+    | AMod => if b =? 0 then RtErr else Ok (wrap t (Z.rem a b))
     end.
 
   (* a ^ b wrapped at the width: wrap t (a ^ b), computed by modular exponentiation *)
@@ -73,8 +73,8 @@ Section Sem.
 
   Definition int_cmp (op : cmp) (a b : Z) : bool :=
     match op with
-    | Eq => a =? b | Ne => negb (a =? b)
-    | Lt => a <? b | Gt => b <? a | Le => a <=? b | Ge => b <=? a
+    | CEq => a =? b | CNe => negb (a =? b)
+    | CLt => a <? b | CGt => b <? a | CLe => a <=? b | CGe => b <=? a
     end.
 
   (* "Widening is safe (sign/zero extend); Narrowing truncates; Signed <-> Unsigned saturates
